@@ -241,6 +241,8 @@ void one_case(Ctx &c) {
       for (int d = 0; d < delay; d++) { tick(); CHECK(c, cb.count == 0 && s.tx.empty(), "timeout-exact", "activity while the answer was still in time"); }
       VLOG(c, "  server -> %s%s", rsp.str().c_str(), conforming ? "" : "   (malformed)");
       s.rx(rsp); lastreq = s.tick; step++;
+      // a transfer that the client ends on a malformed answer ends with an abort frame or with nothing - a finished client has nothing else to say
+      if (!conforming && cb.count == 1) for (auto &t : s.tx) CHECK(c, t.id == txid[n] && t.dlc == 8 && t.d[0] == 0x80, "client-frames", "the client ended the transfer with code %08X on the malformed answer %s and then sent %s (only an abort frame may follow)", cb.code, rsp.str().c_str(), t.str().c_str());
       if (conforming && willfinish) {
         CHECK(c, cb.count == 1, "exactly-one-callback", "the server completed the transfer: %d completion callback(s)", cb.count);
         CHECK(c, cb.code == expcode, "completion-code", "completion code %08X, expected %08X", cb.code, expcode);
